@@ -93,7 +93,11 @@ func (e *Env) bindResults(sig *types.Signature, results []string) {
 }
 
 func (e *Env) fail(format string, a ...interface{}) {
-	panic(contractErr(fmt.Sprintf(format, a...)))
+	msg := fmt.Sprintf(format, a...)
+	if e.callee != nil {
+		msg += " (while applying the contract of " + e.callee.display + ")"
+	}
+	panic(contractErr(msg))
 }
 
 func (e *Env) evalBool(c *CExpr) string {
@@ -875,7 +879,7 @@ func (e *Env) callExpr(c *CExpr) val {
 		if strings.HasPrefix(a.srt, "(Array ") && arrayRange(a.srt) == sBool {
 			return intVal(vc.card(arrayDomain(a.srt), a.t))
 		}
-		e.fail("len of %s", a.srt)
+		e.fail("len of %s in %s", a.srt, c.String())
 	case "view":
 		argn(1)
 		a := e.eval(c.Args[0])
